@@ -126,8 +126,12 @@ theorem pow_sound (a b : CV N) :
     (cPow a b).toPy = .float (N.pow a.toD b.toD) ∧ (cPow a b).isFloating = true := by
   cases a <;> cases b <;> simp [cPow, CV.toPy, CV.toD, CV.isFloating, CV.ctype, CT.isFloating]
 
-theorem pyPow_real (a b : CV N) : pyBin true .pow a.toPy b.toPy = some (.float (N.pow a.toD b.toD)) := by
-  cases a <;> cases b <;> simp [pyBin, CV.toPy, PV.isFloat, PV.toF, PV.toI, CV.toD]
+theorem pyPow_real (a b : CV N) (pv : PV N) (h : pyBin true .pow a.toPy b.toPy = some pv) :
+    pv = .float (N.pow a.toD b.toD) := by
+  cases a <;> cases b <;> simp [pyBin, CV.toPy, PV.isFloat, PV.toF, PV.toI, CV.toD] at h <;>
+    first
+    | (obtain ⟨_, rfl⟩ := h; rfl)
+    | (split at h <;> simp_all [CV.toD])
 
 /-! ### unary operators -/
 
@@ -331,9 +335,8 @@ theorem sound_pow (l r : Expr) (lr rr : Rep)
   simp only [evalPy] at hpv
   obtain ⟨cl, cr, hcl, hcr, hf, _, _, _, _⟩ :=
     eval_two hl hr env (modNonneg_bin hm).1 (modNonneg_bin hm).2 _ pv hpv
-  rw [pyPow_real] at hf
-  simp at hf
-  subst hf
+  have hf' := pyPow_real cl cr pv hf
+  subst hf'
   exact ⟨cPow cl cr, by simp only [evalC, hcl, hcr], (pow_sound cl cr).1, by rw [(pow_sound cl cr).2]; rfl⟩
 
 theorem sound_mod (l r : Expr) (lr rr res : Rep)
